@@ -227,12 +227,43 @@ CHECKS = {
 NOT_BUILT = 'check not built yet in this round (planned; see DESIGN.md section 3)'
 
 
+# id -> what later strengthening rounds added to the generated domain / the observables (appended to the level text)
+ADDED = {
+    'C01': 'Also: one parent-less object passed for an argument and inside a later argument of a constructor; an exhaustive '
+           'sub-domain of every dict call on dict-typed object fields that hold containers; a batch sub-domain on lists.',
+    'C02': 'Also: nested writes through a two-key path under the three notification modes (reference un-aliased first), the '
+           'stored-value identity of setdefault, and an exhaustive sub-domain of overwrites by equal-but-different values.',
+    'C03': 'Also: list elements deleted by path from the root, int values for Float fields (converter path), specs with user '
+           'transforms, held typed values, retry of rejected writes, schema objects unchanged by operations.',
+    'C04': 'Also: user transforms on List/Tuple/Dict/Object specs (modifier and derivation), free-key derivation, and lattices of '
+           'dict keys (named / defaulted / free-key fields), sized tuples, enums over ranged bases, unions with overlapping or frozen candidates.',
+    'C05': 'Also: functors (specified vs defaulted arguments compared after every route), builtin functions, a class defined again '
+           'under the same name, the JSON object handed to from_json left unchanged, unclosed readers, line-boundary characters.',
+    'C06': 'Also: a class pair whose user-defined (symmetric) equality relates a class and its subclass, for the eq/ne negation law.',
+    'C07': 'Also: functors with unspecified defaulted arguments (bookkeeping compared), shared Ref targets, DNA bound to specs, sealed-by-default classes.',
+    'C09': 'Also: skip_notification / own-child / MISSING writes as op options, an exhaustive catalogue of single calls per subscription mask.',
+    'C11': 'Also: float points with point / one-ulp / ordinary ranges x scales with membership decided from the definition, tree-level '
+           'corruptions (extra / missing child, one more level, a value on a value-less node), and the end of a sweep being final.',
+    'C12': 'Also: digit-only string and integer literal values (use_ints_as_literals where documented), permutation operator chains.',
+    'C13': 'Also: user-defined (custom) and evolvable placeholders, filters that accept them, candidate objects of a class and its subclasses.',
+    'C14': 'Also: the process-wide RNG perturbed between the two determinism runs, `where` filters on point-wise recombinators, floats with non-dyadic bounds.',
+    'C15': 'Also: measured trials whose DNA was persisted at proposal time (late feedback), seed 0.',
+    'C16': 'Also: an evolution whose population keeps every reported trial, with a population law at quiescence.',
+    'C17': 'Also: the full contextual-override record (value, cascade, override_attrs) and a bound-attribute probe, function detour destinations.',
+    'C18': 'Also: a container default written into through a path (binds the argument), calls under type-check off, same-call duplicates.',
+    'C19': 'Also: chained assignments with non-name targets and annotations whose evaluation is observable, as last and inner statements.',
+    'C20': 'Also: hostile style property names, class names and self-chosen display names (summary hook), long strings, the HTML controls library.',
+}
+
+
 def main():
   checks = []
   for pid in ALL:
     if pid not in CHECKS:
       continue
     tech, text, note, ref = CHECKS[pid]
+    if pid in ADDED:
+      text = text + ' ' + ADDED[pid]
     checks.append({
         'property_id': pid,
         'quick_cmd': './check %s quick' % pid,
